@@ -70,7 +70,7 @@ def check(prop, tier, seed):
         return [hit]
     rng = random.Random(seed * 131 + 3)
     res = {"suite": "dispatch", "kind": "table+mc+random graphs", "params": params, "cache_hit": False}
-    res["rule"] = "the declared-vs-borrowed table extracted from the real code, random system graphs (2-12 systems, 16 SystemData shapes, dependencies, barriers) x pool sizes 1..64 x 1-5 rounds, and all shape pairs run side by side; one logged dispatch per case checked by TLC against Dispatch!Check"
+    res["rule"] = "the declared-vs-borrowed table extracted from the real code, random system graphs (2-12 systems, 16 SystemData shapes, dependencies, barriers) x pool sizes 1..64 x 1-5 rounds, all shape pairs run side by side, stages of systems creating entities through the shared entities resource at once (handles distinct); one logged dispatch per case checked by TLC against Dispatch!Check"
     d, ngraphs = graphs_module(tier)
     md = os.path.join(C.OUT, "md", "disp%d" % os.getpid())
     p = C.sh(["timeout", "900", "tlc", "-workers", "4", "-metadir", md, "-cleanup", "-noGenerateSpecTE",
@@ -115,6 +115,13 @@ def check(prop, tier, seed):
             scripts.append({"tid": tid, "kind": "dispatch", "threads": th, "rounds": 4,
                             "systems": [{"shape": 6, "deps": [], "spin": 1}]
                                        + [{"shape": rng.choice([0, 2]), "deps": [0], "spin": rng.choice([2, 5])} for _ in range(6)]})
+            tid += 1
+    # many systems of one stage creating (and deleting) entities through the shared entities resource at once,
+    # over many rounds (from the second round on the creations recycle the indices freed by the round before)
+    for th in ([2, 4, 8, 16] if tier == "quick" else [2, 3, 4, 8, 16, 32]):
+        for rep in range(3 if tier == "quick" else 20):
+            scripts.append({"tid": tid, "kind": "dispatch", "threads": th, "rounds": 12 if tier == "quick" else 30, "async": rep % 3 == 2,
+                            "systems": [{"shape": rng.choice([6, 11]), "deps": [], "spin": rng.choice([1, 1, 2])} for _ in range(rng.choice([4, 8, 12]))]})
             tid += 1
     workdir = os.path.join(C.OUT, "work", "%s_%d" % (key, os.getpid()))
     C.sh(["rm", "-rf", workdir])
